@@ -751,6 +751,12 @@ class CompositeCanvas(Canvas):
             self.shards = shards_trim_rows(self.shards, count)
 
         self.coords = self.translate_coords(0, -top)
+        self._discard_trimmed_cursor()
+
+    def _discard_trimmed_cursor(self) -> None:
+        """Forget the cursor if trimming has left it outside the canvas."""
+        if (c := self.coords.get("cursor")) and not (0 <= c[0] < self.cols() and 0 <= c[1] < self.rows()):
+            del self.coords["cursor"]
 
     def trim_end(self, end: int) -> None:
         """Trim lines from the bottom of the canvas.
@@ -765,6 +771,7 @@ class CompositeCanvas(Canvas):
             raise self._finalized_error
 
         self.shards = shards_trim_rows(self.shards, self.rows() - end)
+        self._discard_trimmed_cursor()
 
     def pad_trim_left_right(self, left: int, right: int) -> None:
         """
@@ -795,6 +802,8 @@ class CompositeCanvas(Canvas):
 
         self.coords = self.translate_coords(left, 0)
         self.shards = shards
+        if left < 0 or right < 0:
+            self._discard_trimmed_cursor()
 
     def pad_trim_top_bottom(self, top: int, bottom: int) -> None:
         """
